@@ -39,7 +39,23 @@ def workdir_added(repo, base):
                 continue
             i += 1
         all_[p], pure[p] = a, ins
-    # untracked files are not reported by git diff; the code treats them as wholly unstaged insertions
+    # untracked files are not reported by git diff: a file that is not in `base`'s tree but exists in
+    # the working directory is wholly an unstaged pure insertion (lines as Rust's str::lines counts them)
+    rc, names, _ = repo.plain_git("ls-files", "-z", "--others", "--exclude-standard")
+    import os as _os
+    for p in [n for n in names.split("\0") if n]:
+        if p in all_:
+            continue
+        rc2, _o, _e = repo.plain_git("cat-file", "-e", f"{base}:{p}")
+        if rc2 == 0:
+            continue
+        try:
+            data = open(_os.path.join(repo.path, p), encoding="utf-8").read()
+        except Exception:
+            continue
+        n = len(data.split("\n")) - (1 if data.endswith("\n") else 0) if data else 0
+        if n > 0:
+            all_[p] = set(range(1, n + 1)); pure[p] = set(range(1, n + 1))
     return all_, pure
 
 
